@@ -958,6 +958,13 @@ func Build(p Prog, seed int64, failSlot int, failWhen string, tmpdir string) (*B
 			fo = append(fo, mail.WithFileContentType(mail.ContentType(ctype)))
 		}
 		desco, desc := inCharset(p.Cs, Text(fs.Desc, rng))
+		if fs.Desc == "twotags" { // no description, but a file option of the caller that gives the file a header field with two values
+			desco, desc = "", ""
+			fo = append(fo, func(f *mail.File) {
+				f.Header.Add("X-Document-Tag", "alpha")
+				f.Header.Add("X-Document-Tag", "beta gamma")
+			})
+		}
 		if desc != "" {
 			fo = append(fo, mail.WithFileDescription(desco))
 		}
